@@ -143,9 +143,6 @@ pred invTargets(t) = statusEntriesNonNil(t) && injectiveStatus(t.targets.Status)
 contract TargetsManager.doCallbacks
   requires t != nil
   modifies nothing
-contract TargetsManager.saveTargets
-  requires t != nil
-  modifies nothing
 
 contract TargetsManager.UpdateTargets
   requires t != nil && req != nil && wfTargets(req.Targets) && uniqueHashes(req.Targets)
@@ -157,9 +154,31 @@ contract TargetsManager.UpdateTargets
   ensures[C10] @idle_instant_kept (len(t.targets.Status) == 0 && old(t.targets.IdleAt) != nil) ==> t.targets.IdleAt == old(t.targets.IdleAt)
   modifies TargetsManager.targets at {t}, target.ScrapeStatus.TargetState, target.ScrapeStatus.ScrapeTimes, target.ScrapeStatus.* at {},
            tkestack.io/kvass/pkg/scrape.StatisticsSeriesResult.* at {}, mapof(tkestack.io/kvass/pkg/scrape.StatisticsSeriesResult.MetricsTotal) at {}, mapof(TargetsInfo.Status) at {},
-           net/url.URL.* at {}, gWJob, gWIdx
+           net/url.URL.* at {}, gWJob, gWIdx, gFileContent, gFileComplete, gLastMarshal
+  ensures[C09] @acknowledged_means_persisted err == nil ==> (pathjoin(2, t.storeDir, storeFileName) in gFileComplete && gFileContent[pathjoin(2, t.storeDir, storeFileName)] == gLastMarshal)
 
 contract NewTargetsManager
   ensures[C10] @constructor_state result != nil && statusEntriesNonNil(result) && injectiveStatus(result.targets.Status) && len(result.targets.Status) == 0 && len(result.targets.Targets) == 0 && assignedHaveStatus(result)
   modifies TargetsManager.* at {}, mapof(TargetsInfo.Status) at {}, mapof(TargetsInfo.Targets) at {}
+
+// ---------- persisting the assignment (C09) ----------
+// the store file of this manager
+pred storePathOf(t) = pathjoin(2, t.storeDir, storeFileName)
+
+// "If persisting an update is interrupted at any point (process killed, write failing part-way, disk full), the next
+// start ... resumes either the previous or the new assignment and nothing else": a non-atomic write may stop at any byte,
+// so the store path itself must never be the target of a plain write; it may only be replaced, atomically, by a file
+// that was written completely
+on call io/ioutil.WriteFile(filename, data, perm) in TargetsManager.saveTargets
+   assert[C09] @store_is_never_written_in_place filename != pathjoin(2, t.storeDir, storeFileName)
+on call os.Rename(oldpath, newpath) in TargetsManager.saveTargets
+   assert[C09] @only_a_complete_file_replaces_the_store newpath == pathjoin(2, t.storeDir, storeFileName) ==> (oldpath in gFileComplete && gFileContent[oldpath] == gLastMarshal)
+
+contract TargetsManager.saveTargets
+  requires t != nil
+  ensures[C09] @acknowledged_means_persisted result == nil ==> (pathjoin(2, t.storeDir, storeFileName) in gFileComplete && gFileContent[pathjoin(2, t.storeDir, storeFileName)] == gLastMarshal)
+  ensures[C09] @failure_leaves_old_or_new result != nil ==> ((gFileContent[pathjoin(2, t.storeDir, storeFileName)] == old(gFileContent[pathjoin(2, t.storeDir, storeFileName)])
+             && (pathjoin(2, t.storeDir, storeFileName) in gFileComplete) == old(pathjoin(2, t.storeDir, storeFileName) in gFileComplete))
+        || (pathjoin(2, t.storeDir, storeFileName) in gFileComplete && gFileContent[pathjoin(2, t.storeDir, storeFileName)] == gLastMarshal))
+  modifies gFileContent, gFileComplete, gLastMarshal
 @*/
